@@ -84,8 +84,9 @@ type Job struct {
 
 // Sub is one pod set of a job.
 type Sub struct {
-	Name string `json:"name"`
-	Min  int    `json:"min"`
+	Name   string `json:"name"`
+	Min    int    `json:"min"`
+	Parent string `json:"parent"` // "" = directly under the root; a sub-group that is a parent holds no pods
 }
 
 type Tol struct {
@@ -315,7 +316,12 @@ func BuildPodGroup(sc *Scenario, j int, now time.Time) *enginev2alpha2.PodGroup 
 		},
 	}
 	for _, sub := range job.Subs {
-		pg.Spec.SubGroups = append(pg.Spec.SubGroups, enginev2alpha2.SubGroup{Name: sub.Name, MinMember: int32(sub.Min)})
+		sg := enginev2alpha2.SubGroup{Name: sub.Name, MinMember: int32(sub.Min)}
+		if sub.Parent != "" {
+			parent := sub.Parent
+			sg.Parent = &parent
+		}
+		pg.Spec.SubGroups = append(pg.Spec.SubGroups, sg)
 	}
 	if job.LastStart >= 0 {
 		pg.Annotations[commonconstants.LastStartTimeStamp] = now.Add(-time.Duration(job.LastStart) * time.Second).UTC().Format(time.RFC3339)
